@@ -267,6 +267,7 @@ theorem rehashStep_tab {fb : FB} {r1 r2 : Array Nat} {interval : Nat} {T0 : Arra
       simp only
       obtain ⟨x, y, hx, hf, hsz, hy, hne⟩ := modifyM_spec hm
       simp only [VLARGE_LOG] at hv
+      unfold rehashLTable at hf
       simp only [Option.bind_eq_bind, Option.bind_eq_some_iff] at hf
       obtain ⟨o1, h1, o2, h2, offsets, ho, hf⟩ := hf
       have hrec : x.WF → LTable.Rec x y (fun a => a.2 = pidx ∧ IsHit fb r1 r2 interval pidx a.1) :=
